@@ -1,26 +1,27 @@
 #!/bin/sh
 # Run once in /verif after a fresh restore, offline. Builds the Lean library, the proof modules,
 # the line-protocol drivers and the fact extractor from files on disk only. The Go harnesses are
-# rebuilt from /repo's working tree by every check.
+# rebuilt from /repo's working tree by every check (this only warms the Go build cache).
 set -e
 cd "$(dirname "$0")"
 export GOFLAGS=-mod=mod GOPROXY=off
 mkdir -p .work/bin evidence
 (cd extract && go build -o ../.work/bin/extract .)
 cd lean
-lake build J5V
-# proof modules and drivers
-for f in J5V/Props/*.lean; do m=$(echo "${f%.lean}" | tr / .); lake build "$m"; done
-for d in $(grep -o 'name = "drv_[a-z0-9_]*"' lakefile.toml | cut -d'"' -f2); do lake build "$d"; done
+PROPS=$(for f in J5V/Props/*.lean; do echo "${f%.lean}" | tr / .; done)
+DRVS=$(grep -o 'name = "drv_[a-z0-9_]*"' lakefile.toml | cut -d'"' -f2)
+# one invocation: lake schedules the modules over all cores
+lake build J5V $PROPS $DRVS
 cd ..
 # warm the Go build cache: build every harness once against /repo's current tree
 python3 - <<'PY'
-import os, sys
+import os, sys, glob
 sys.path.insert(0, os.getcwd())
 from vlib import engine
 d = os.path.join(engine.VERIF, "harness", "tree", "internal", "verifh")
 for name in sorted(os.listdir(d)):
-    if os.path.exists(os.path.join(d, name, "main.go")):
+    srcs = glob.glob(os.path.join(d, name, "*.go"))
+    if any("package main" in open(s).read() for s in srcs):
         out, log, dt = engine.build_harness(name)
         print("harness", name, "ok" if out else "FAILED", "%.1fs" % dt)
         if not out:
